@@ -1,5 +1,6 @@
 import CfrVerif.Proofs.ViewBridge
 import CfrVerif.Proofs.CompileWF
+import CfrVerif.Proofs.WorklistEq
 /-!
 # C01 — reported utility and regret of any strategy profile are exact
 
@@ -130,6 +131,18 @@ theorem accepted_game_best_response (r : Raw α) (hs : Raw.Shape r) (g : Game α
     IsGreatest { u | ∃ τ, IsStrat τ ∧ FitsGame g me τ ∧ u = utility g (σ.deviate me τ) me }
       (optimalDeviations g me (σ (!me))) :=
   eval_best_response g (compile_ok_wf r hs g hacc) σ hσ me
+
+/-- **the crate's own schedule**: `getInfoWL` evaluates the best responses with the work-list of
+`optimal_deviations` as the crate runs it (per-infoset `future_nodes` counters, a LIFO queue of
+infosets whose later infosets are all resolved).  On every game `from_root` accepts and every
+valid profile it reports the same utility and regrets as `getInfo`, so every statement of this
+file holds for it verbatim -/
+theorem eval_worklist_schedule (r : Raw α) (hs : Raw.Shape r) (g : Game α)
+    (hacc : fromRoot r = .ok g) (σ : Profile α) (hσ : ProfileOK g σ) :
+    (getInfoWL g σ).util = (getInfo g σ).util ∧
+    (getInfoWL g σ).regretOne = (getInfo g σ).regretOne ∧
+    (getInfoWL g σ).regretTwo = (getInfo g σ).regretTwo :=
+  getInfoWL_eq g (compile_ok_wf r hs g hacc) (compile_ok_prevwf r hs g hacc) σ hσ
 
 /-- a profile has regret zero exactly when it is a Nash equilibrium: no player can gain by any
 unilateral deviation -/
